@@ -543,7 +543,7 @@ def _eval_state(mat, law, et, dim, g0, stack, Xe, letter, s0, key, out):
     tolW0 = TOL_FD * (nS + 1e-3 * s0)[None] * sc
     tolW = tolW0 + 4 * Wt + 16 * EPS / H0 * (np.abs(W0)[None] + s0)
     errW = np.abs(Wd - dW_an)
-    out["inconclusive"] += int(np.sum(4 * Wt > tolW0))
+    out["inconclusive"] += int(np.sum(4 * Wt > tolW - 4 * Wt))  # truncation estimate dominates the tolerance
     out["trunc"] = max(out["trunc"], float(np.max(Wt / (tolW0 / TOL_FD))))
     bad = errW > tolW
     if bad.any():
@@ -554,7 +554,7 @@ def _eval_state(mat, law, et, dim, g0, stack, Xe, letter, s0, key, out):
     tolS0 = TOL_FD * (nD[None] * sc)[..., None]
     tolS = tolS0 + 4 * St + 16 * EPS / H0 * (np.abs(S0)[None] + s0)
     errS = np.abs(Sd - dS_an)
-    out["inconclusive"] += int(np.sum(4 * St > tolS0))
+    out["inconclusive"] += int(np.sum(4 * St > tolS - 4 * St))
     out["trunc"] = max(out["trunc"], float(np.max(St / (tolS0 / TOL_FD))))
     bad = errS > tolS
     if bad.any():
@@ -635,7 +635,7 @@ def _compare_tangent(stack, K0, R_all, what, key, v, info, sign=1.0, check_base=
     tol = tol0 + 4 * Kt + 64 * EPS / H0 * (rmag + 1e-3 * sc) + 1e-300
     err = np.abs(K0 - Kfd)
     info["entries"] += err.size
-    info["inconclusive"] += int(np.sum(4 * Kt > tol0 + 1e-300))
+    info["inconclusive"] += int(np.sum(4 * Kt > tol - 4 * Kt))  # truncation estimate dominates the tolerance
     if sc.max() > 0:
         info["trunc"] = max(info["trunc"], float(np.max(Kt / np.maximum(sc, 1e-300))))
     info["nonzero"] = info["nonzero"] or bool(sc.max() > 0)
